@@ -132,6 +132,29 @@ def run(ctx):
     c.ob("R4", ok, rn, "sync-child-teardown-in-finally", "the sync actor thread stops and removes its child in a finally" if ok else
          "the sync actor thread does not tear its child down in a finally", rn.node)
     handle_before_start(ctx, "R5")
+    # ---- R6 nothing about an invocation is cached under its (non-unique) id / src -------------------
+    n6 = 0
+    for f in p.funcs_in("base_interpreter", "interpreter", "sync_interpreter"):
+        for w in attr_writes(f):
+            if w.base != "self" or w.op != "subscript" or not isinstance(w.node, ast.Assign):
+                continue
+            key = w.node.targets[0].slice
+            kexprs = [key]
+            if isinstance(key, ast.Name):
+                from sa.util import assignments_to
+                kexprs += [getattr(a, "value", key) for a in assignments_to(f, key.id) if getattr(a, "value", None) is not None]
+            for k in kexprs:
+                if isinstance(k, ast.Attribute) and isinstance(k.value, ast.Name) and k.value.id in ("invocation", "inv", "invoke_def") and k.attr in ("id", "src"):
+                    n6 += 1
+                    uses_same = any(isinstance(y, ast.Name) and y.id == k.value.id for y in ast.walk(w.node.value))
+                    if isinstance(w.node.value, ast.Name):
+                        from sa.util import assignments_to as _at
+                        uses_same = uses_same or any(any(isinstance(y, ast.Name) and y.id == k.value.id for y in ast.walk(getattr(a, "value", a))) for a in _at(f, w.node.value.id))
+                    c.ob("R6", not uses_same, f, f"cache-by-invoke-{k.attr}:{w.attr}",
+                         "not derived from the invocation" if not uses_same else
+                         f"'{stmt_text(w.node)}' caches data derived from an invocation under its {k.attr}; invoke ids are unique only by default (an explicit "
+                         f"'id' can be reused on several states), so a later invocation with the same id is started with the first one's input/event", w.node)
+    c.ob("R6", True, sched, "invoke-caches", f"{n6} interpreter-level caches keyed by an invocation's id/src examined", sched.node, nontrivial=False)
     ct = p.method("Interpreter", "_cancel_state_tasks")
     ok = any(isinstance(x, ast.Await) and "cancel_by_owner" in norm(x.value) for x in own_nodes(ct.node))
     c.ob("R4", ok, ct, "exit-awaits-cancellation", "state exit awaits the cancellation of the state's tasks" if ok else
